@@ -40,7 +40,7 @@ CHECKS = {
    text="Extended grapheme cluster rules GB3-GB13 incl. GB9c are written as a TLA+ fold (independent of the unicode-segmentation crate); TLC checks the rule machine's lemmas on all class strings <= 4 (thorough 5) and validates every conversion record of the real code (all strings <= 2 quick / 3 thorough plus strided longer and random ones over 33 segmentation-relevant code points): all six constructors, len, get, chars forwards/backwards, Display and every slice form of Utf32Str and Utf32String must equal Convert(s).",
    note="Trusted: hand-assigned break classes of 33 code points (stable across Unicode 15.1-16.0); TLC."),
  'C10': dict(design='4/C10', technique='TLA+ trace validation (TLC): no panic, used matcher = fresh matcher per call; SlabLayout model',
-   text="Every recorded call must return without panic (harness built with overflow checks and debug assertions; a panic is a recorded outcome judged by the spec) and the outcome on a long-lived matcher that served all earlier calls of its trace must equal the outcome on a fresh matcher (MatcherTrace hist clause). Sizes on and around every limit are part of the L and W families.",
+   text="Every recorded call must return without panic (harness built with overflow checks and debug assertions; a panic is a recorded outcome judged by the spec) and the outcome on a long-lived matcher that served all earlier calls of its trace must equal the outcome on a fresh matcher (MatcherTrace hist clause). Sizes on and around every limit are part of the L and W families. The cfg-gated extents hook reports the byte range of each of the five views MatrixSlab::alloc forms; TLC checks them in bounds, disjoint and aligned (and against SlabLayout.tla: a mere layout change is MODEL-DRIFT), and SlabLayoutMC proves the layout arithmetic for every admissible window size of the selected needle lengths (all 1..2048 in the thorough tier).",
    note=MATCHER_NOTE + " Out-of-bounds accesses through in-bounds views are not observable by this technique."),
 }
 
@@ -48,31 +48,31 @@ CHECKS = {
 SCHED_NOTE = 'Trusted: TLC; the scheduler serialises instrumented operations (atomics of the cfg-gated shim, protocol hooks, harness call/return markers) and code between them runs freely; schedules are sampled (seeded random with role starvation), not exhaustive; timeouts are real time.'
 CHECKS.update({
  'C06': dict(design='4/C06', technique='TLA+ property monitors (NucleoTrace.tla) validated by TLC over scheduler-controlled executions of the real Nucleo',
-   text="The real Nucleo (UI thread, 0-3 injector threads, 1-4 pool threads, 1-2 columns) runs scenario scripts of reparse / tick(timeout) / restart / push / extend under a controlled scheduler that decides the order of every atomic operation and protocol hook (cfg-gated yield points), so writers are held between index reservation and publication and runs are interleaved with cancellations and rescoring. After every tick the whole snapshot projection is logged (count, pattern, every match with its item read through the safe accessor). TLC consumes each trace with the monitor spec: every match initialised, injected, unique, scored as the reference table of the trace header says, ordered by (score desc, length asc, index asc), count consistent with a processed set. A panic inside the library is a recorded outcome (child process, partial trace + abort event).",
+   text="The real Nucleo (UI thread, 0-3 injector threads, 1-4 pool threads, 1-2 columns) runs scenario scripts of reparse / tick(timeout) / restart / push / extend under a controlled scheduler that decides the order of every atomic operation and protocol hook (cfg-gated yield points), so writers are held between index reservation and publication and runs are interleaved with cancellations and rescoring. After every tick the whole snapshot projection is logged (count, pattern, every match with its item read through the safe accessor). TLC consumes each trace with the monitor spec: every match initialised, injected, unique, scored as the reference table of the trace header says, ordered by (score desc, length asc, index asc), count consistent with a processed set. A panic inside the library is a recorded outcome (child process, partial trace + abort event). In addition TLC explores the protocol model Nucleo.tla (tick / worker / notify / restart, one action per hook site) exhaustively for small constants with the snapshot invariants; the model's vocabulary is the hook sites and its counterexamples are replayed on the code by scheduler rules.",
    note=SCHED_NOTE + " Reference scores come from a fresh MultiPattern/Matcher (C01-C05, C15). A mutant confined to the parallel sort's cancellation needs >4000 matches and is covered by C18, not here."),
  'C07': dict(design='4/C07', technique='TLA+ monitor FromScratch (NucleoTrace.tla) at quiescence, validated by TLC over scheduler-controlled executions',
-   text="Every scenario ends in (and several contain intermediate) quiescent points reached by an event loop that only ticks when notified; when the last tick reported running = false TLC requires the logged snapshot to equal the from-scratch result computed in the spec from the header's reference scores over all items whose injection completed on the current stream (count, match set, scores, order via the C06 monitor). Edit histories include append chains (f, fo, foo, foo$, foo$b; a\\, a\\ b), non-append edits, several edits between ticks, negative patterns, restarts, cancelled runs.",
+   text="Every scenario ends in (and several contain intermediate) quiescent points reached by an event loop that only ticks when notified; when the last tick reported running = false TLC requires the logged snapshot to equal the from-scratch result computed in the spec from the header's reference scores over all items whose injection completed on the current stream (count, match set, scores, order via the C06 monitor). Edit histories include append chains (f, fo, foo, foo$, foo$b; a\\, a\\ b), non-append edits, several edits between ticks, negative patterns, restarts, cancelled runs. The protocol model Nucleo.tla is checked exhaustively for the invariant Converged (quiescent and not running implies snapshot = FromScratch).",
    note=SCHED_NOTE),
  'C08': dict(design='4/C08', technique='TLA+ linearizability monitor (BoxcarTrace.tla) validated by TLC over scheduler-controlled executions of the real boxcar::Vec (cfg-gated facade)',
-   text="2-3 real threads run push / extend (honest, short, over-long iterators; panicking fill callbacks) / get / count / snapshot iteration on one real boxcar::Vec, prefilled so that bucket boundaries and the eager-allocation index are crossed; the scheduler picks the order of every atomic operation. TLC validates each trace at call/return granularity: indices distinct and gap-free w.r.t. the reservations, a lookup returns nothing or exactly the value and columns some started push produced, never for an unassigned index, read-your-writes for completed pushes and batches, count between completed pushes and started reservations and monotone per observer, batches contiguous in order, final read-back explained exactly by the calls.",
+   text="2-3 real threads run push / extend (honest, short, over-long iterators; panicking fill callbacks) / get / count / snapshot iteration on one real boxcar::Vec, prefilled so that bucket boundaries and the eager-allocation index are crossed; the scheduler picks the order of every atomic operation. TLC validates each trace at call/return granularity: indices distinct and gap-free w.r.t. the reservations, a lookup returns nothing or exactly the value and columns some started push produced, never for an unassigned index, read-your-writes for completed pushes and batches, count between completed pushes and started reservations and monotone per observer, batches contiguous in order, final read-back explained exactly by the calls. TLC also explores the fine-grained model Boxcar.tla (one action per atomic operation, two threads, three buckets) exhaustively for the linearizability invariants; and every installed bucket pointer must refer to an allocation of the bucket's length.",
    note=SCHED_NOTE + " Values are unique per run so an observed (index, value) pair identifies its writer."),
  'C09': dict(design='4/C09', technique='TLA+ happens-before model (MemModel.tla, vector clocks, release sequences) evaluated by TLC on recorded atomics with their declared orderings',
-   text="Every atomic operation of the library is recorded with the memory ordering written in the source (the cfg-gated shim forwards and logs it) together with every non-atomic access to library-owned memory (entry write/read/drop, bucket initialisation/free, matcher scratch slots). TLC replays each trace through the C11-style happens-before model: program order, release/acquire pairs with RMW-continued release sequences, and a short list of axiomatic edges (thread spawn/join, rayon spawn and fork/join, worker mutex hand-over, Arc release/acquire). The scheduler's serialisation contributes no edge, so a weakened ordering is a reported race although x86 would never misbehave. Applied to the vector-level and to the whole-matcher executions.",
+   text="Every atomic operation of the library is recorded with the memory ordering written in the source (the cfg-gated shim forwards and logs it) together with every non-atomic access to library-owned memory (entry write/read/drop, bucket initialisation/free, matcher scratch slots). TLC replays each trace through the C11-style happens-before model: program order, release/acquire pairs with RMW-continued release sequences, and a short list of axiomatic edges (thread spawn/join, rayon spawn and fork/join, worker mutex hand-over, Arc release/acquire). The scheduler's serialisation contributes no edge, so a weakened ordering is a reported race although x86 would never misbehave. Applied to the vector-level and to the whole-matcher executions. Exhaustive complement: the ordering of every abstract atomic site is EXTRACTED from the recorded events and Boxcar.tla is explored exhaustively with that table under the finite known-writes abstraction of happens-before (invariant RaceFree), so a weakened ordering in the source is confronted with all interleavings of the model.",
    note=SCHED_NOTE + " Synchronisation inside rayon / parking_lot / Arc is axiomatised (placed conservatively); stale-value effects of Relaxed loads are modelled only through interleaving."),
  'C11': dict(design='4/C11', technique='TLA+ drop-accounting monitors (BoxcarTrace.tla, NucleoTrace.tla) validated by TLC over scheduler-controlled executions with drop-logging payloads',
-   text="Items are drop-logging payloads. Vector level: every value handed to push/extend (honest, lying and panicking callers, concurrent) is dropped exactly once, published ones exactly when the vector is dropped, values of panicking fills / surplus iterator elements before. Matcher level: an entry may only be dropped when no injector handle of its stream is alive, the matcher has moved to another stream (or is being dropped) and the snapshot no longer shows it; at the end every created item has been dropped exactly once. Histories include restarts, old injectors that keep pushing, drops from injector threads.",
+   text="Items are drop-logging payloads. Vector level: every value handed to push/extend (honest, lying and panicking callers, concurrent) is dropped exactly once, published ones exactly when the vector is dropped, values of panicking fills / surplus iterator elements before. Matcher level: an entry may only be dropped when no injector handle of its stream is alive, the matcher has moved to another stream (or is being dropped) and the snapshot no longer shows it; at the end every created item has been dropped exactly once. Histories include restarts, old injectors that keep pushing, drops from injector threads. Boxcar.tla is explored exhaustively for DroppedOnce / NothingLeaked / NoDropWhileAlive, and the Lifecycle scripts (one per model transition) check that everything created is dropped once the matcher and all handles are gone.",
    note=SCHED_NOTE + " Leaks of column strings inside a leaked item are not separately observed (the item's drop is)."),
  'C12': dict(design='4/C12', technique='TLA+ restart monitors (NucleoTrace.tla) validated by TLC over scheduler-controlled executions',
-   text="Item ids carry their stream number. For every logged snapshot TLC checks: all matches from one stream; after restart(true) empty until a run over the new stream was taken over; after restart(false) identical to the pre-restart snapshot until then; items of an earlier stream never in a snapshot updated after the restart; item count bounded by the new stream's injections; no duplicate produced by stale bookkeeping. Scenarios: restart with old injectors still pushing, runs finishing before/after the restart, timed-out ticks in between, two restarts in a row.",
+   text="Item ids carry their stream number. For every logged snapshot TLC checks: all matches from one stream; after restart(true) empty until a run over the new stream was taken over; after restart(false) identical to the pre-restart snapshot until then; items of an earlier stream never in a snapshot updated after the restart; item count bounded by the new stream's injections; no duplicate produced by stale bookkeeping. Scenarios: restart with old injectors still pushing, runs finishing before/after the restart, timed-out ticks in between, two restarts in a row. The protocol model Nucleo.tla (two streams) is checked exhaustively for RestartIsolation and snapshot safety.",
    note=SCHED_NOTE),
  'C13': dict(design='4/C13', technique='TLA+ wake-up monitors (NucleoTrace.tla) validated by TLC over scheduler-controlled executions driven by a notify-only event loop',
-   text="The UI script ends in an event loop that ticks only when the notify closure (the harness's, logged as an event) was called since the last tick. TLC checks at the end of every run that a last tick which reported running = true was followed by a notification (no lost wake-up), and for every push/extend that notify was called by that call after the item's publication store. The two recorded lost-wake-up schedule signatures are known findings; any other lost wake-up is a violation.",
+   text="The UI script ends in an event loop that ticks only when the notify closure (the harness's, logged as an event) was called since the last tick. TLC checks at the end of every run that a last tick which reported running = true was followed by a notification (no lost wake-up), and for every push/extend that notify was called by that call after the item's publication store. The two recorded lost-wake-up schedule signatures are known findings; any other lost wake-up is a violation. The protocol model Nucleo.tla is checked exhaustively for NoOtherLostWakeup (the recorded lost wake-up carries a ghost signature); its three lost-wake-up counterexample families are forced on the real code by scheduler rules (scenarios forced-lost-wakeup-*) and reproduce as known findings; further adversarial rules (the whole run completes right after the spawn; a push in flight during a scan) target the hand-over windows.",
    note=SCHED_NOTE),
  'C19': dict(design='4/C19', technique='TLA+ status monitors (NucleoTrace.tla) validated by TLC over scheduler-controlled executions',
-   text="For every tick TLC compares the snapshot projections logged before and after: changed = false implies identical matches, count and pattern; running = false implies that every push/extend of the current stream that had returned before the tick was called is included in the item count and that the snapshot pattern is the current pattern.",
+   text="For every tick TLC compares the snapshot projections logged before and after: changed = false implies identical matches, count and pattern; running = false implies that every push/extend of the current stream that had returned before the tick was called is included in the item count and that the snapshot pattern is the current pattern. The protocol model Nucleo.tla is checked exhaustively for RunningFalseMeansCaughtUp and Converged.",
    note=SCHED_NOTE),
  'C20': dict(design='4/C20', technique='TLA+ handle-count monitor (NucleoTrace.tla) validated by TLC over scripted and randomly scheduled handle histories',
-   text="The monitor keeps the set of live injector handles with their stream; every value returned by active_injectors() (after each injector/clone/drop/restart/tick/dump of the scripts, including drops from injector threads that overlap the observation) must equal the number of live handles of the current stream (an interval when a drop overlaps the read).",
+   text="The monitor keeps the set of live injector handles with their stream; every value returned by active_injectors() (after each injector/clone/drop/restart/tick/dump of the scripts, including drops from injector threads that overlap the observation) must equal the number of live handles of the current stream (an interval when a drop overlaps the read). Additionally spec -> impl: TLC explores the handle-algebra model Lifecycle.tla exhaustively (invariant: the reference-count formula equals the number of live handles of the current stream) and prints one script per model transition; every script is replayed on a real Nucleo (a timed-out tick is produced by parking the worker at run.begin) and LifecycleTrace validates each replayed step against the model.",
    note=SCHED_NOTE),
 })
 
